@@ -480,6 +480,62 @@ def e12(rep, src):
         rep.violation("E12", key, "the merged CASE is built as %r, expected %r (outer branch first)" % (r, want), f.where())
 
 
+def e13(rep, src):
+    """CTE lists of the two inputs of a binary node are merged without repetition."""
+    from .core import walk_guards
+
+    rep.rule(
+        "E13",
+        "FromRelationVisitor::{join, set}: every CTE taken from an input query (ctes_from_query(left|right)) enters the merged WITH list only under `if <set>.insert(cte)` on one HashSet/BTreeSet shared by both inputs "
+        "(or through `.unique()`): a relation shared by both inputs (diamond) is defined once",
+        floor=4,
+        necessary="a WITH clause that defines the same name twice is rejected by every target engine; adjacent-only de-duplication (Vec::dedup) misses [X, A] ++ [X, B]",
+    )
+    for name in ("join", "set"):
+        fs = [f for f in src.find_fns(name=name, file="relation/sql.rs") if "FromRelationVisitor" in (f.self_ty or "")]
+        if len(fs) != 1:
+            rep.undecidable("E13", "FromRelationVisitor::" + name, "expected one visitor method, found %d" % len(fs), "src/relation/sql.rs")
+            continue
+        f = fs[0]
+        sets = {}
+        for l in find(f.body, "let"):
+            p = l["pat"]
+            nm = p["name"] if p["k"] == "ident" else (p["pat"]["name"] if p["k"] == "typed" and p["pat"]["k"] == "ident" else None)
+            t = (show(p.get("ty"), 0) if isinstance(p.get("ty"), dict) else str(p.get("ty") or "")) + " " + (show(l["init"], 0) if l.get("init") else "")
+            if nm and ("HashSet" in t or "BTreeSet" in t):
+                sets[nm] = l
+        sources = [c for c in find(f.body, "call") if is_call_to(c, "ctes_from_query")]
+        used_sets = set()
+        for side in ("left", "right"):
+            key = "FromRelationVisitor::%s@%s" % (name, side)
+            cs = [c for c in sources if side in show(c["args"][0], 0)]
+            if len(cs) != 1:
+                rep.undecidable("E13", key, "expected one ctes_from_query(%s), found %d" % (side, len(cs)), f.where())
+                continue
+            c = cs[0]
+            # the consumer chain containing this call
+            guard_set = None
+            how = None
+            for m in find(f.body, "mcall"):
+                if m["m"] == "for_each" and any(x is c for x in walk(m["recv"])) and m["args"] and m["args"][0]["k"] == "closure":
+                    for x, guards in walk_guards(m["args"][0]["body"]):
+                        if x["k"] == "mcall" and x["m"] == "push":
+                            for g in guards:
+                                if g[0] == "if" and g[2] is True and g[1]["k"] == "mcall" and g[1]["m"] == "insert" and path_of(g[1]["recv"]) in sets:
+                                    guard_set = path_of(g[1]["recv"])
+                                    how = "push under if %s.insert(..)" % guard_set
+                if m["m"] == "unique" and any(x is c for x in walk(m["recv"])):
+                    guard_set, how = "<unique>", "itertools unique()"
+            rep.instance("E13", key, {"visitor": name, "input": side, "merged_by": how})
+            if guard_set is None:
+                dd = [m for m in find(f.body, "mcall") if m["m"] in ("dedup", "dedup_by", "dedup_by_key")]
+                rep.violation("E13", key, "the CTEs of the %s input of %s are not merged through a set%s" % (side, name, " (Vec::dedup only removes adjacent repeats)" if dd else ""), f.where())
+            else:
+                used_sets.add(guard_set)
+        if len(used_sets) > 1:
+            rep.violation("E13", "FromRelationVisitor::%s@shared" % name, "left and right are de-duplicated against different sets %s: a CTE common to both is emitted twice" % sorted(used_sets), f.where())
+
+
 def run(rep):
     rep.explanation = (
         "Table agreement and structural rules of the render / read round trip on the default (PostgreSQL) path. E3/E4 join the renderer table (variant -> translator method -> SQL spelling, read from the type-resolved MIR) "
